@@ -669,6 +669,10 @@ pub fn fold_case(s: &[char], p: &[char], a: (u8, usize), b: (u8, usize), hist: u
 }
 
 fn main() {
+    kvh::on_thread(real_main);
+}
+
+fn real_main() {
     let args = kvh::parse_args("C01", "c01");
     let miri = args.mode == "miri";
     let mut ctx = Ctx::new(args.clone(), RULE);
